@@ -1,7 +1,7 @@
 (* Single extraction unit -> ocaml/model_gen.ml. Directives used: those of ExtrOcamlBasic only
    (bool, option, unit, list, prod, sumbool -> OCaml natives). N/Z/positive stay extracted datatypes. *)
 From Coq Require Extraction ExtrOcamlBasic ExtrOCamlFloats ExtrOCamlInt63.
-From VF Require Import Base.Prelude Generated.Consts C20.Model C19.Model Sheet.Model Sheet.Adjust C16.Model C17.Model C07.Model C08.Machine C08.Model C13.Model Sheet.View C11.Model C12.Model C10.Model C18.Model C14.Model C03.Merge.
+From VF Require Import Base.Prelude Generated.Consts C20.Model C19.Model Sheet.Model Sheet.Adjust C16.Model C17.Model C07.Model C08.Machine C08.Model C13.Model C13.Chains Sheet.View C11.Model C12.Model C10.Model C18.Model C14.Model C03.Merge.
 Extraction Language OCaml.
 Extraction "model_gen.ml"
   Z.add Z.mul Z.sub Z.div Z.modulo Z.opp Z.ltb Z.eqb Z.of_nat Z.to_nat Pos.succ
@@ -15,6 +15,7 @@ Extraction "model_gen.ml"
   C07.Model.adjust_operand
   C08.Model.eval_impl C08.Model.agg_sum C08.Model.agg_count C08.Model.agg_counta C08.Model.agg_product C08.Model.agg_min C08.Model.agg_max C08.Machine.prio
   C13.Model.locate C13.Model.encrypt_pkg C13.Model.decrypt_pkg
+  C13.Chains.fat_table C13.Chains.minifat_table C13.Chains.msat_header C13.Chains.msat_sector C13.Chains.walk
   Sheet.View.W C11.Model.srun C11.Model.sstep C11.Model.set_row C11.Model.set_col_style C11.Model.sw_init C11.Model.flush C11.Model.kview C11.Model.mem_of
   C11.Model.bw_step C11.Model.bw_contents
   C12.Model.open_with C12.Model.fstep C12.Model.close
